@@ -5,7 +5,6 @@
 import binascii
 from copy import copy
 import struct
-from operator import attrgetter
 import datetime
 
 from ..parser import EXTENSION_MARKER
@@ -1462,7 +1461,14 @@ class Compiler(compiler.Compiler):
                                          compiled_members)
 
         if sort_by_tag:
-            compiled_members = sorted(compiled_members, key=attrgetter('tag'))
+            # Canonical tag order: class, then tag number. The number
+            # of a multi-octet tag grows with its length, so octet
+            # strings of equal length compare as numbers.
+            compiled_members = sorted(
+                compiled_members,
+                key=lambda member: (member.tag[0] & 0xc0,
+                                    len(member.tag),
+                                    member.tag))
 
         return compiled_members, additions
 
